@@ -209,8 +209,8 @@ func storeRule(c *core.Ctx, rule string) {
 
 func init() {
 	register(&Property{
-		ID:    "C08",
-		Level: "other",
+		ID:          "C08",
+		Level:       "other",
 		Explanation: "Decides the orientation agreement of the six functions that walk the 32-level tree (a necessary condition of 'every proof verifies against its root'): each has a per-level test of the index bit (recognised forms idx&(1<<h) {>,!=,==} 0 and (idx>>h)&1 {==,!=} {0,1}), covers levels 0..31 or 31..0 with the very variable used in the bit test, and on the bit-set edge treats the running node as a RIGHT child — builders hash (sibling[h], running) and (running, sibling[h]) on the clear edge; walkers descend into node.Right / node.Left of the node fetched for the running hash; getSiblings records node.Left / node.Right accordingly and substitutes zeroHashes[h] only when the node is absent; AddLeaf reads lastLeftCache[h] / zeroHashes[h] and writes the cache on the clear edge only; UpsertLeaf uses the siblings of the same index. This is the verifier's (CalculateRoot) and the contracts' convention, so a single flipped site is reported at that site. C08-pair: GetProof returns the siblings of the (index, root) asked, and callers pass index and root hash of one root. Not decided: that proof values recompute the root for all tree contents (an induction over contents), and 'last written as of that root' (content addressing of rht is trusted). Added after round 7: C08-schema, C08-feed (rollup-exit updates keyed by log index, shared with C11-feed), C08-trees (every reorg rewinds both trees, shared with C04), lookups answer found only with the row they read.",
 		Rules: []Rule{
 			{ID: "C08-schema", Floor: 3, Run: func(c *core.Ctx) { schemaTypesRule(c, "C08-schema", "tree") }, Text: "[SCHEMA-TYPES] integer columns have INTEGER affinity (numeric ORDER BY), big.Int text columns have TEXT affinity, references are not deferred to COMMIT"},
